@@ -709,6 +709,79 @@ def optional_use_rule(prog, chk, pid):
     chk.info["optional_lookups_examined"] = n_src
 
 
+def regex_backtracking_rule(prog, chk, pid):
+    """termination also covers the pattern matcher: Python's backtracking matcher takes time exponential in the input for a pattern in which an unbounded repetition
+    contains another unbounded repetition (star height 2: `(\\S+ *)+`) and the match fails.  Every constant pattern handed to the `re` module by the library is parsed
+    with the checker's own use of the standard pattern parser; an unbounded repeat nested in an unbounded repeat is reported.  (Star height <= 1 is a sufficient, not a
+    necessary condition for polynomial matching; the library's own patterns all have it.)"""
+    import re._parser as _rp  # the pattern parser only: nothing of the repository is executed
+
+    P = "%s.regex-no-nested-unbounded-repeat" % pid
+    n = 0
+    REFN = {"compile", "match", "fullmatch", "search", "sub", "subn", "split", "findall", "finditer"}
+
+    def nested(items, inside):
+        for op, av in items:
+            name = str(op)
+            if name in ("MAX_REPEAT", "MIN_REPEAT", "POSSESSIVE_REPEAT"):
+                lo, hi, sub = av
+                unbounded = hi == _rp.MAXREPEAT or (isinstance(hi, int) and hi > 64)
+                if unbounded and inside:
+                    return True
+                if nested(sub, inside or unbounded):
+                    return True
+            elif name == "SUBPATTERN":
+                if nested(av[3], inside):
+                    return True
+            elif name == "BRANCH":
+                if any(nested(alt, inside) for alt in av[1]):
+                    return True
+            elif name in ("ASSERT", "ASSERT_NOT"):
+                if nested(av[1], inside):
+                    return True
+            elif name == "ATOMIC_GROUP":
+                if nested(av, inside):
+                    return True
+        return False
+
+    for q, m in sorted(prog.modules.items()):
+        if not (q.startswith("bec2format.") or q == "register_crypto_plugin"):
+            continue
+        for c in ast.walk(m.tree):
+            if not (isinstance(c, ast.Call) and c.args):
+                continue
+            fn = c.func
+            nm = fn.attr if isinstance(fn, ast.Attribute) else getattr(fn, "id", None)
+            if nm not in REFN:
+                continue
+            head = fn.value.id if isinstance(fn, ast.Attribute) and isinstance(fn.value, ast.Name) else nm if isinstance(fn, ast.Name) else None
+            if head is None:
+                continue
+            r_ = prog.resolve_symbol(m, head)
+            if not (isinstance(r_, tuple) and r_[0] == "external" and str(r_[1]).split(".")[0] == "re"):
+                continue
+            try:
+                pat = prog.fold(m, c.args[0])
+            except NotConst:
+                chk.fail(P, q, ast.unparse(c)[:80], "%s:%d" % (m.relpath, c.lineno), "pattern is not a constant: its matching time cannot be bounded from the source")
+                n += 1
+                continue
+            if not isinstance(pat, (str, bytes)):
+                continue
+            n += 1
+            try:
+                tree = _rp.parse(pat)
+                bad = nested(list(tree), False)
+            except Exception as e_:  # an invalid pattern raises re.error at run time: not a format error either
+                chk.fail(P, q, repr(pat)[:80], "%s:%d" % (m.relpath, c.lineno), "pattern does not parse: %s" % e_)
+                continue
+            chk.require(not bad, P, q, repr(pat)[:90], "%s:%d" % (m.relpath, c.lineno), "no unbounded repetition inside an unbounded repetition: a failing match cannot take exponential time",
+                        "an unbounded repetition contains another unbounded repetition: on text that does not match, the backtracking matcher tries exponentially many ways to split it (the parser hangs on a long word)")
+    if n == 0:
+        raise AnalysisError("no pattern of the re module found in the library (the parser of configuration identifiers uses two)")
+
+
+
 def run(prog, chk, tier):
     chk.explanation = ("Each parser entry point is interpreted with bec2format, the plug-in adapter and pyaes inlined (AES block functions summarised; the vendored ECC "
                        "decoders enter through the summary that C19 establishes). Every explicit raise and every implicit raiser of a fixed catalogue (subscripts typed by "
@@ -759,6 +832,7 @@ def run(prog, chk, tier):
     chk.info["unresolved_calls"] = an.unresolved[:20]
     typed_union_rule(prog, chk, "C14")
     mac_input_rule(prog, chk, "C14", an)
+    regex_backtracking_rule(prog, chk, "C14")
     optional_use_rule(prog, chk, "C14")
     termination_rule(prog, chk, "C14", an)
     chk.require(not an.global_writes, "C14.no-global-writes", "reachable from the parser entry points", "stores to module globals / registry / module-level containers", an.global_writes[0][0] if an.global_writes else "",
